@@ -15,6 +15,9 @@ import (
 	"golang.org/x/tools/go/ssa"
 )
 
+// maxViolatingPaths: a harness stops exploring once this many paths ended in a violation.
+const maxViolatingPaths = 20000
+
 type workItem struct {
 	prefix  []uint64
 	witness Witness
@@ -531,6 +534,11 @@ func (r *Run) Explore() {
 					}
 				}
 				if r.MaxPaths > 0 && r.Paths >= r.MaxPaths && len(queue) > 0 {
+					r.Truncated = true
+					stop = true
+				}
+				if len(r.Violations) >= maxViolatingPaths && len(queue) > 0 {
+					// the verdict is settled; the rest of the space would only add more of the same
 					r.Truncated = true
 					stop = true
 				}
